@@ -8,7 +8,7 @@
 // the sink pulls only when it has no Pull outstanding.  Profile R is `!c.pullable`.
 // ===================================================================================================
 //@include env_dn.rs OP=$OP TP="$TP" G="$G" GNAME=$GNAME HEAP=$HEAP O=$O ORPHAN="g.up.phase != Up::Live" QUIET="g.up.phase != Up::Subscribing" LITE=false SINKGATE=true
-//@include env_up.rs OP=$OP TP="$TP" G="$G" GNAME=$GNAME HEAP=$HEAP I=$I SFX="" UPF=up EVGUARD=true SUBPOST=true SUBPRE=true
+//@include env_up.rs OP=$OP TP="$TP" G="$G" GNAME=$GNAME HEAP=$HEAP I=$I SFX="" UPF=up EVGUARD=true SUBPOST=true SUBPRE=true LATE=true
 /// Every history of one subscription with conformant peers is an execution of `world`.
 #[verifier::exec_allows_no_decreases_clause]
 pub fn world<$TP>(c: &Cap)
@@ -23,6 +23,9 @@ pub fn world<$TP>(c: &Cap)
             cap_ok(*c),
     {
         if nondet_bool() {
+            if ghost_test(Ghost(g@.up.phase == Up::Subscribing)) {
+                $OP__source_talkback(&mut h, &mut g, c, Message::Handshake(UpTb {}));   // a late greeting
+            }
             up_events(&mut h, &mut g, c);
         } else if ghost_test(Ghost(g@.dn.phase == Dn::Live)) {
             if nondet_bool() {
